@@ -1,7 +1,7 @@
 (* The reader model and the count model meet: a profile the reader accepts, handed to the count model the way
    Election.__init__ reads it, satisfies the hypotheses of the whole-run theorems (wf_profile, wf_profile_m). *)
 From Coq Require Import ZArith List Bool String Lia.
-From Droop Require Import Proofs.QuotaCount Proofs.ForwardCount.
+From Droop Require Import Proofs.QuotaCount Proofs.ForwardCount Proofs.WinnersCfer Proofs.MajorityCfer.
 From Droop Require Import Model.KernelBase Model.Str Model.Arith Model.State Model.Prims Model.Prelude Model.Profile Model.ProfileSpec
   Model.Election Model.EndToEnd Proofs.Zlike Proofs.Gregory Proofs.Conserve Proofs.Forward Proofs.ParserLemmas Proofs.ConserveCount
   Proofs.MeekRun Proofs.MeekKfRun Proofs.MeekPrfRun Proofs.MeekCount Proofs.Terminate Proofs.TerminateMeek Proofs.Winners Proofs.Majority.
@@ -197,6 +197,29 @@ Proof.
   intros Hns Heps Hex r text p fuel s k Hr Hp Hn He Hk. cbv zeta.
   pose proof (count_quota_prescribed A S ZL cfg Hns Heps Hex r _ fuel s k Hr He Hk) as H.
   unfold prescribed in H. rewrite Hn in H. exact H.
+Qed.
+
+(* cfer (no sure-loser batches): exactly min(seats, candidates not withdrawn) winners; cfer(-batch): the one-seat majority *)
+Theorem accepted_winners_cfer : cf_method cfg = MWigm -> exact A = false -> 0 <= cf_nseats cfg -> cf_batch cfg = false ->
+  forall text p fuel s k, parse_file text = Ok p -> p_linesEq p = [] -> cf_nballots cfg = p_nBallots p ->
+  exec (@crashed A) fuel (count_cmd A cfg RCfer) (init_state A cfg (to_count_profile p)) = Some (s, k) -> k <> Abort ->
+  nlen (electeds A s) = Z.min (cf_nseats cfg) (nlen (eligibles A s)).
+Proof.
+  intros Hm Hex Hns Hbt text p fuel s k Hp Hq Hn He Hk.
+  pose proof (nballots_strict text p Hp Hq) as Hb. pose proof (vp_enough_ballots p (strip_bom_declared text p Hp)) as Hen.
+  apply (count_winners_cfer A S ZL cfg Hm Hex ltac:(lia) Hns _ fuel s k Hbt (proj1 (accepted_file_is_wf text p Hp)) ltac:(congruence) He Hk).
+Qed.
+
+Theorem accepted_majority_cfer : exact A = false -> R (epsilon A) = 1 -> cf_nseats cfg = 1 ->
+  forall text p m fuel s k, parse_file text = Ok p -> p_linesEq p = [] -> cf_nballots cfg = p_nBallots p ->
+  In m (p_eligible p) -> p_nBallots p < 2 * first_prefs (to_count_profile p) m ->
+  exec (@crashed A) fuel (count_cmd A cfg RCfer) (init_state A cfg (to_count_profile p)) = Some (s, k) -> k <> Abort ->
+  forall c, In c (State.cands s) -> cid c = m -> cst c = Elected.
+Proof.
+  intros Hex Heps Hseat text p m fuel s k Hp Hq Hn Hel Hmaj He Hk.
+  pose proof (strip_bom_declared text p Hp) as V. pose proof (nballots_strict text p Hp Hq) as Hb.
+  apply (count_majority_cfer A S ZL cfg Hex Heps Hseat _ m fuel s k (proj1 (accepted_file_is_wf text p Hp)) ltac:(congruence)); [|lia|exact He|exact Hk].
+  destruct (proj1 (vp_eligible p V m) Hel) as [Hr Hw]. apply live_cand; assumption.
 Qed.
 
 End Accepted.
